@@ -53,7 +53,12 @@ def lake_build(targets):
 def proof_modules(prop):
     """the proof files of a property: Proofs/<prop>.lean and Proofs/<prop><lowercase suffix>.lean (e.g. C13b.lean)"""
     d = os.path.join(LEAN, 'FancyModel', 'Proofs')
-    return sorted(f[:-5] for f in os.listdir(d) if re.fullmatch(re.escape(prop) + r'([a-z][A-Za-z0-9]*)?\.lean', f))
+    # files being written right now (one basename per line in Proofs/.wip, never committed non-empty) are not yet part of the check
+    wip = set()
+    if os.path.exists(os.path.join(d, '.wip')):
+        wip = set(l.strip() for l in open(os.path.join(d, '.wip')) if l.strip())
+    return sorted(f[:-5] for f in os.listdir(d)
+                  if re.fullmatch(re.escape(prop) + r'([a-z][A-Za-z0-9]*)?\.lean', f) and f not in wip)
 
 
 def import_closure(mods):
